@@ -415,6 +415,6 @@ func runC19(r *h.Run) {
 	// variable part under scaffolds is one key smaller than in C01
 	p.quickScafK, p.thoroughScafK, p.thoroughIDk = 2, 3, 5
 	r.Rule = "same space as C01 (variable part under scaffolds: K(U21,2) quick / K(U21,3) thorough) with the short-table scaffolds of every reachable table size and their mixed variants (short and 17-bit nodes side by side), bigroot, big2; values are distinct-per-id integers / strings so leaf lines parse unambiguously; oracle: no panic; the #id tokens are exactly {0..NodeCnt-1}, each once; the =value suffixes top to bottom equal the retained values in key order; a loaded instance renders the identical string"
-	r.Assumptions = commonAssumptions
+	r.Assumptions = append([]string{"the rendering is parsed by its current line format: one line per node, the node id as #<digits>, a leaf value after the first '=' that follows the id"}, commonAssumptions...)
 	runTriePass(r, buildPhases(r, p), oracleC19, nil)
 }
